@@ -4,11 +4,11 @@ use crate::support::*;
 use educe::Educe;
 use core::cmp::Ordering;
 #[derive(Educe)]
-#[educe(Ord, Eq, PartialEq)]
-pub struct T(#[educe(Ord(rank(3)))] A<0>, #[educe(Ord(method = m_cmp))] A<1>, #[educe(Ord(rank = "1"))] A<2>, #[educe(Ord(method = "m_cmp"))] A<0>);
-impl PartialOrd for T { fn partial_cmp(&self, o: &Self) -> Option<Ordering> { Some(::core::cmp::Ord::cmp(self, o)) } }
-pub fn values() -> Vec<T> { vec![T(A(1), A(7), A(7), A(1)), T(A(1), A(7), A(1), A(7)), T(A(1), A(1), A(7), A(0)), T(A(7), A(7), A(1), A(1)), T(A(1), A(0), A(7), A(1)), T(A(7), A(1), A(7), A(7)), T(A(7), A(1), A(1), A(7)), T(A(7), A(0), A(1), A(7)), T(A(1), A(1), A(7), A(1)), T(A(1), A(7), A(7), A(0)), T(A(0), A(1), A(7), A(1)), T(A(1), A(1), A(1), A(7)), T(A(0), A(7), A(1), A(7)), T(A(0), A(7), A(0), A(7)), T(A(1), A(1), A(0), A(7)), T(A(0), A(7), A(7), A(7)), T(A(7), A(7), A(7), A(0)), T(A(7), A(1), A(7), A(1)), T(A(7), A(0), A(7), A(7)), T(A(7), A(1), A(1), A(1)), T(A(0), A(1), A(1), A(1)), T(A(1), A(7), A(7), A(7)), T(A(0), A(0), A(0), A(7)), T(A(0), A(7), A(7), A(0)), T(A(0), A(7), A(7), A(1)), T(A(7), A(7), A(0), A(1)), T(A(1), A(0), A(0), A(1)), T(A(0), A(0), A(0), A(1)), T(A(7), A(0), A(1), A(1)), T(A(1), A(1), A(1), A(0)), T(A(0), A(1), A(0), A(1)), T(A(1), A(0), A(7), A(0)), T(A(7), A(1), A(0), A(0)), T(A(0), A(0), A(7), A(0)), T(A(1), A(7), A(0), A(0)), T(A(1), A(0), A(7), A(7))] }
-pub fn show(x: &T) -> String { #[allow(unused_variables)] match x { T(p0, p1, p2, p3) => format!("T({},{},{},{})", sv(p0), sv(p1), sv(p2), sv(p3)) } }
-pub fn o_disc(x: &T) -> i128 { match x { T(_, _, _, _) => 0 } }
-pub fn o_cmp(a: &T, b: &T) -> Ordering { match (a, b) { (T(a0, a1, a2, a3), T(b0, b1, b2, b3)) => { let c = m_cmp(a1, b1); if c != Ordering::Equal { return c; } let c = m_cmp(a3, b3); if c != Ordering::Equal { return c; } let c = ::core::cmp::Ord::cmp(a2, b2); if c != Ordering::Equal { return c; } let c = ::core::cmp::Ord::cmp(a0, b0); if c != Ordering::Equal { return c; } Ordering::Equal } } }
-pub fn run(out: &mut Out) { let vs = values(); for (i, a) in vs.iter().enumerate() { for (j, b) in vs.iter().enumerate() { let e = o_cmp(a, b); let g = ::core::cmp::Ord::cmp(a, b); out.check(g == e, "ord_16", "cmp", || format!("cmp({}, {}) = {:?} expected {:?}", show(a), show(b), g, e)); } } }
+#[educe(PartialOrd, Eq, PartialEq, Ord)]
+pub struct T { #[educe(Ord = false)] _0: A<0>, #[educe(Ord(method = m_cmp))] arg: A<0>, source: A<2> }
+
+pub fn values() -> Vec<T> { vec![T { _0: A(0), arg: A(0), source: A(0) }, T { _0: A(0), arg: A(0), source: A(1) }, T { _0: A(0), arg: A(0), source: A(7) }, T { _0: A(0), arg: A(1), source: A(0) }, T { _0: A(0), arg: A(1), source: A(1) }, T { _0: A(0), arg: A(1), source: A(7) }, T { _0: A(0), arg: A(7), source: A(0) }, T { _0: A(0), arg: A(7), source: A(1) }, T { _0: A(0), arg: A(7), source: A(7) }, T { _0: A(1), arg: A(0), source: A(0) }, T { _0: A(1), arg: A(0), source: A(1) }, T { _0: A(1), arg: A(0), source: A(7) }, T { _0: A(1), arg: A(1), source: A(0) }, T { _0: A(1), arg: A(1), source: A(1) }, T { _0: A(1), arg: A(1), source: A(7) }, T { _0: A(1), arg: A(7), source: A(0) }, T { _0: A(1), arg: A(7), source: A(1) }, T { _0: A(1), arg: A(7), source: A(7) }, T { _0: A(7), arg: A(0), source: A(0) }, T { _0: A(7), arg: A(0), source: A(1) }, T { _0: A(7), arg: A(0), source: A(7) }, T { _0: A(7), arg: A(1), source: A(0) }, T { _0: A(7), arg: A(1), source: A(1) }, T { _0: A(7), arg: A(1), source: A(7) }, T { _0: A(7), arg: A(7), source: A(0) }, T { _0: A(7), arg: A(7), source: A(1) }, T { _0: A(7), arg: A(7), source: A(7) }] }
+pub fn show(x: &T) -> String { #[allow(unused_variables)] match x { T { _0: p0, arg: p1, source: p2 } => format!("T({},{},{})", sv(p0), sv(p1), sv(p2)) } }
+pub fn o_disc(x: &T) -> i128 { match x { T { _0: _, arg: _, source: _ } => 0 } }
+pub fn o_cmp(a: &T, b: &T) -> Ordering { match (a, b) { (T { _0: a0, arg: a1, source: a2 }, T { _0: b0, arg: b1, source: b2 }) => { let c = m_cmp(a1, b1); if c != Ordering::Equal { return c; } let c = ::core::cmp::Ord::cmp(a2, b2); if c != Ordering::Equal { return c; } Ordering::Equal } } }
+pub fn run(out: &mut Out) { let vs = values(); for (i, a) in vs.iter().enumerate() { for (j, b) in vs.iter().enumerate() { let e = o_cmp(a, b); let g = ::core::cmp::Ord::cmp(a, b); out.check(g == e, "ord_16", "cmp", || format!("cmp({}, {}) = {:?} expected {:?}", show(a), show(b), g, e)); let g2 = ::core::cmp::PartialOrd::partial_cmp(a, b); out.check(g2 == Some(e), "ord_16", "partial_is_some_cmp", || format!("partial_cmp({}, {}) = {:?} expected Some({:?})", show(a), show(b), g2, e)); } } }
